@@ -333,6 +333,65 @@ pub fn enumerate(ctx: &Ctx, parts: &str, f: &mut dyn FnMut(&EncCase)) {
             }
         }
     }
+    // (k) the two documented presets taken whole — Options::fast() (block 1152, no LPC, fast correlation, no mid-side,
+    //     partition order 3) and Options::best() (block 4096, LPC 12, partition order 6) — × signal families × every writer
+    if has('k') {
+        for opt in [Opt::fast_preset(), Opt::best_preset()] {
+            let b = opt.block as usize;
+            for bps in [8u32, 16, 24] {
+                for &kind in KINDS {
+                    for amp in [1u32, 2] {
+                        for len in [b - 1, b, b + 1, 2 * b + 17] {
+                            for ch in [1u8, 2] {
+                                if ctx.mine() {
+                                    let m = family(kind, amp, bps, len);
+                                    let pcm: Vec<i32> = if ch == 1 { m } else { m.iter().enumerate().flat_map(|(i, x)| [*x, (*x as i64 + (i as i64 % 3) - 1).clamp(smin(bps) as i64, smax(bps) as i64) as i32]).collect() };
+                                    let w = crate::codec::WRITERS[(len + ch as usize + amp as usize) % 4];
+                                    f(&EncCase { set: "k", w, opt, sig: Sig { rate: 44100, bps, ch }, pcm: &pcm });
+                                }
+                            }
+                        }
+                    }
+                }
+            }
+            for code in 0..64u32 {
+                if ctx.mine() {
+                    let pcm = hetero(code, 2, 16, b + 40);
+                    f(&EncCase { set: "k", w: WriterKind::Sample, opt, sig: Sig { rate: 48000, bps: 16, ch: 2 }, pcm: &pcm });
+                }
+            }
+            for ch in 3..=8u8 {
+                if ctx.mine() {
+                    let pcm = hetero(0o31203120 >> (3 * (8 - ch as u32)), ch as usize, 16, b + 3);
+                    f(&EncCase { set: "k", w: WriterKind::Channel, opt, sig: Sig { rate: 96000, bps: 16, ch }, pcm: &pcm });
+                }
+            }
+        }
+    }
+    // (l) steep low-pass signals (sums of k octave-spaced slow sinusoids near full scale): the optimal predictor approaches
+    //     (1 - z^-1)^p, its coefficients exceed the quantiser's range and the LPC quantiser works at shift 0 / takes its
+    //     negative-shift branch (found with `vpx lpcprobe2`; the parameter sets below are the ones that reach it)
+    if has('l') {
+        for (k, f0, spread) in [(8usize, 0.025f64, 1.8f64), (11, 0.01, 1.6), (7, 0.02, 2.0), (8, 0.01, 2.0), (6, 0.04, 2.0), (5, 0.08, 2.0)] {
+            for bps in [16u32, 24, 32] {
+                for bs in [128u16, 192, 384] {
+                    for lpc in [12u8, 32] {
+                        for win in [crate::codec::Win::Hann, crate::codec::Win::Tukey(1.0), crate::codec::Win::Tukey(0.5)] {
+                            for ch in [1u8, 2] {
+                                if ctx.mine() {
+                                    let n = bs as usize + 1;
+                                    let amp = smax(bps) as f64;
+                                    let m: Vec<i32> = (0..n).map(|i| { let mut v = 0.0; for j in 0..k { v += ((i as f64) * f0 * spread.powi(j as i32) + j as f64).sin(); } (v / k as f64 * amp * 0.95) as i32 }).collect();
+                                    let pcm: Vec<i32> = if ch == 1 { m } else { m.iter().flat_map(|x| [*x, x / 2]).collect() };
+                                    f(&EncCase { set: "l", w: WriterKind::Sample, opt: Opt { block: bs, lpc: Some(lpc), win, part: 0, ..base }, sig: Sig { rate: 44100, bps, ch }, pcm: &pcm });
+                                }
+                            }
+                        }
+                    }
+                }
+            }
+        }
+    }
     // (h) signal-family grid on real block sizes
     if has('h') {
         let blocks: &[u16] = if q { &[16, 192, 576, 4096] } else { &[16, 17, 100, 192, 576, 1000, 1152, 4096, 65535] };
